@@ -710,7 +710,8 @@ fn run_adv(case: &AdvCase, want_trace: bool) -> AdvResult {
                     let mut o = obs2.lock().unwrap();
                     if o.poisoned_at.is_none() && o.legit_at.is_none() && !o.dead {
                         let seq: Vec<&AMsg> = auth_sent.iter().map(|(_, a)| a).collect();
-                        let self_conn = NAMES[case2.name as usize % NAMES.len()] == "a@host";
+                        // the name the peer actually claimed (a raw Name step carries its own)
+                        let self_conn = matches!(seq.first(), Some(AMsg::Name { who, .. }) if NAMES[*who as usize % NAMES.len()] == "a@host");
                         let verdict = classify(case2.server_side, &seq, self_conn);
                         match verdict {
                             SeqClass::Prefix => {}
